@@ -49,12 +49,14 @@ type Contract struct {
 	Cover    bool
 	NoFrame  bool
 	BVNames  []string
+	IntNames []string // variables of a bit-vector type that are nevertheless kept as integers (counters, indices)
 	Lets     []LetClause
 	Uses     []Clause
 	LoopUses map[string][]Clause
 	Specialize map[string][]string
 	Inherited string // contract inherited from this (identical) repository package
 	LoopAssert map[string][]Clause // ghost assertions at the end of a loop body (proved, then assumed)
+	LoopExitAssert map[string][]Clause // the same at `break` exits of the loop
 }
 
 // LetClause: `let NAME = arg(CALLEE, occurrence, index)` or `ret(CALLEE, occurrence, index)` binds a
@@ -113,6 +115,7 @@ type Universe struct {
 	HookFiles []string
 	SameAs    map[string]string // dependency package -> repository package with identical code
 	Notes     []string
+	AsmModels map[string]string // generated Go models of assembly routines (overlay path -> source)
 }
 
 func loadUniverse(repo string, extraTags string, patterns ...string) (*Universe, error) {
@@ -132,12 +135,33 @@ func loadUniverse(repo string, extraTags string, patterns ...string) (*Universe,
 	if len(patterns) == 0 {
 		patterns = []string{"./pkg/..."}
 	}
+	// assembly routines become generated Go model functions through the loader's overlay
+	asmSrc := map[string]string{}
+	var asmNotes []string
+	filepath.Walk(filepath.Join(repo, "pkg"), func(p string, info os.FileInfo, err error) error {
+		if err != nil || !info.IsDir() {
+			return nil
+		}
+		src, notes := asmModels(p)
+		asmNotes = append(asmNotes, notes...)
+		if src != "" {
+			if cfg.Overlay == nil {
+				cfg.Overlay = map[string][]byte{}
+			}
+			fn := filepath.Join(p, "zz_govc_asm_model_verif.go")
+			cfg.Overlay[fn] = []byte(src)
+			asmSrc[fn] = src
+		}
+		return nil
+	})
 	pkgs, err := packages.Load(cfg, patterns...)
 	if err != nil {
 		return nil, err
 	}
 	u := &Universe{Fset: fset, Pkgs: map[string]*packages.Package{}, Root: pkgs,
 		Contracts: map[string]*Contract{}, Specs: map[string]*SpecFn{}, RepoDir: repo}
+	u.AsmModels = asmSrc
+	u.Notes = append(u.Notes, asmNotes...)
 	var visit func(p *packages.Package)
 	visit = func(p *packages.Package) {
 		if _, ok := u.Pkgs[p.PkgPath]; ok {
@@ -191,7 +215,7 @@ func (u *Universe) loadDeps(dir string) error {
 
 var clauseWords = map[string]bool{"requires": true, "ensures": true, "modifies": true, "panics": true,
 	"loop": true, "repr": true, "inline": true, "props": true, "opaque": true, "unroll": true, "note": true, "induct": true, "cover": true,
-	"bv": true, "let": true, "use": true, "noframe": true, "specialize": true}
+	"bv": true, "intvar": true, "let": true, "use": true, "noframe": true, "specialize": true}
 
 func (u *Universe) parseContractFile(path, pkgPath string, deps bool) error {
 	data, err := os.ReadFile(path)
@@ -238,6 +262,11 @@ func (u *Universe) parseContractFile(path, pkgPath string, deps bool) error {
 					curC.Uses = append(curC.Uses, cl)
 				case "loopuse":
 					curC.LoopUses[p.loop] = append(curC.LoopUses[p.loop], cl)
+				case "loopexitassert":
+					if curC.LoopExitAssert == nil {
+						curC.LoopExitAssert = map[string][]Clause{}
+					}
+					curC.LoopExitAssert[p.loop] = append(curC.LoopExitAssert[p.loop], cl)
 				case "loopassert":
 					if curC.LoopAssert == nil {
 						curC.LoopAssert = map[string][]Clause{}
@@ -482,6 +511,10 @@ func (u *Universe) parseContractFile(path, pkgPath string, deps bool) error {
 				s := body
 				pend = append(pend, pending{kind: "loopassert", loop: id, text: &s, line: where})
 				lastClause = pend[len(pend)-1].text
+			case "exitassert":
+				s := body
+				pend = append(pend, pending{kind: "loopexitassert", loop: id, text: &s, line: where})
+				lastClause = pend[len(pend)-1].text
 			default:
 				return fmt.Errorf("%s: bad loop clause kind %q", where, kind)
 			}
@@ -510,6 +543,9 @@ func (u *Universe) parseContractFile(path, pkgPath string, deps bool) error {
 			lastClause = nil
 		case "bv":
 			curC.BVNames = append(curC.BVNames, strings.Fields(rest)...)
+			lastClause = nil
+		case "intvar":
+			curC.IntNames = append(curC.IntNames, strings.Fields(rest)...)
 			lastClause = nil
 		case "use":
 			s := rest
